@@ -83,19 +83,19 @@ snapprop("C08", "proof", "Texel.Properties.C08",
 snapprop("C05", "proof", "Texel.Properties.C05",
     ["Texel.C05.C05_no_empty_list", "Texel.C05.C05_no_keep_no_appended", "Texel.C05.C05_keep_extends", "Texel.C05.C05_shape", "Texel.C05.C05_at_least_three"],
     ["snap", FUNC],
-    "Lean 4 theorems on the functional model (absent rather than empty; keep-points-and-lines only appends single-ring polygons) + exact ring-structure oracle on every implementation answer",
+    "Lean 4 theorems on the functional model (absent rather than empty; shell first, then holes, each of at least three vertices and correctly oriented, opposite under the reverse flag; keep-points-and-lines only appends single rings of at most two vertices) + exact ring-structure oracle on every implementation answer",
     "Theorems for all polygons (valid or not): a collapsed tile matrix is absent, never an empty list; with keep-points-and-lines every tile matrix present without it carries the same polygons followed by single-ring polygons. "
-    "Without the option every returned ring has at least three vertices, and in general a level is such polygons followed by single rings of at most two vertices (C05_shape, C05_at_least_three, through the functional cleanupNewRing/splitRing/dedupe/match). "
-    "The other ring-level clauses (shell first, orientation, no closing duplicate, no vertex twice) are decided by the oracle on every implementation answer, valid and arbitrary polygons, synthetic and real grids (the F4 repair lives there), each case with and without keep.",
-    "Trusted: Lean kernel; the functional forms cleanupNewRingF/dedupeF/matchF are compared with the transcribed do-notation reference on every snap/split operation (streams split, model-functional-vs-reference); orientation and no-vertex-twice are validated by oracle + correspondence, not proved.")
+    "Every assembled polygon is its shell followed by its holes, all of at least three vertices, shell counter-clockwise (signed area >= 0) and holes clockwise, exactly the opposite under the reverse flag; collapsed parts are single rings of at most two vertices, none without the option "
+    "(C05_shape, C05_at_least_three, through the functional cleanupNewRing/splitRing/dedupe/match and the proved area2 reversal). The other ring-level clauses (no closing duplicate, no equal neighbours, no vertex twice) are decided by the oracle on every implementation answer, valid and arbitrary polygons, synthetic and real grids (the F4 repair lives there), each case with and without keep.",
+    "Trusted: Lean kernel; the functional forms cleanupNewRingF/dedupeF/matchF are compared with the transcribed do-notation reference on every snap/split operation (streams split, model-functional-vs-reference); no-vertex-twice and no-closing-duplicate are validated by oracle + correspondence, not proved.")
 
 snapprop("C07", "proof", "Texel.Properties.C07",
-    ["Texel.C07.levelAcc_indep", "Texel.C07.C07_flag", "Texel.C07.reversePolys_involutive", "Texel.C07.C07_flag_presence"],
+    ["Texel.C07.levelAcc_indep", "Texel.C07.C07_flag", "Texel.C07.reversePolys_involutive", "Texel.C07.C07_flag_presence", "Texel.C07.C07_ring_direction"],
     ["snap", FUNC],
-    "Lean 4 theorems (the reverse-winding flag only reverses the assembled polygon rings; presence unchanged) + repetition / fresh-process / reversed-input oracles",
-    "Theorems: with the reverse flag a level carries the same polygons with every ring reversed followed by the same appended points/lines, and is present iff it is present without the flag. Determinism of the implementation "
+    "Lean 4 theorems (the reverse-winding flag only reverses the assembled polygon rings; presence unchanged; writing rings of non-zero area in the opposite direction changes nothing) + repetition / fresh-process / reversed-input oracles",
+    "Theorems: with the reverse flag a level carries the same polygons with every ring reversed followed by the same appended points/lines, and is present iff it is present without the flag; and snapPolygonF returns the same for any subset of rings reversed when every ring has non-zero signed area (C07_ring_direction, through the proved area2 reversal). Determinism of the implementation "
     "(Go randomises map iteration) and independence of the written ring direction are decided by the harness: every case 3x in-process, once in a fresh process, with random subsets of rings reversed.",
-    "Trusted: Lean kernel; the model is a function by construction, so determinism of the code itself rests on the correspondence and the repetition runs; ring-reversal invariance is validated, not proved.")
+    "Trusted: Lean kernel; the model is a function by construction, so determinism of the code itself rests on the correspondence and the repetition runs; the model's exact integer area2 stands for the float orientation test of go-spatial (float seam, compared on every case).")
 
 snapprop("C03", "proof", "Texel.Properties.C03",
     ["Texel.C03.C03_output_is_pixel_of_level", "Texel.C03.C03_index_in_range", "Texel.C03.C03_centre_in_pixel", "Texel.C03.C03_centre_exact", "Texel.C03.C03_centre_deepest", "Texel.C03.C03_round", "Texel.C03.C03_deviation", "Texel.C03.C03_pixel_size"],
